@@ -51,6 +51,10 @@ CHECKS = {
          "Every change of every document reached round-trips through raw bytes, compressed bytes and decode/encode with the same hash; every subset (<=5) of new changes bundles to byte-identical changes and loads like apply_changes; ~2.2k hand-built expanded changes (actions x scalar extremes x key/pred shapes) encode/decode/reload.",
          "Hand-built changes stay inside documented ranges.",
          "DESIGN.md §4 C18", H),
+ "C28": ("model_checking", "explicit-state BFS for start states x exhaustive transaction sequences, byte-level differential oracle",
+         "Every distinct replica document reached x every sequence of <=2 (quick) / <=3 (thorough) alphabet calls (plus a rejected call) rolled back through Transaction::rollback, transact(Err) and AutoCommit::rollback: reads, heads and save_nocompress bytes identical; the same later edit yields byte-identical change bytes.",
+         "Sequences stop at the first call not enabled.",
+         "DESIGN.md §4 C28", H),
  "C32": ("model_checking", "explicit-state BFS; export vs winners projection; length-contract-enforcing serializer",
          "Every distinct document reached is exported with serde_json and with a harness Serializer that fails if a container writes a different number of entries than announced; both equal the winners-only projection built from keys/length/get_all/text.",
          "Projection uses get_all(last) not get().",
@@ -59,6 +63,10 @@ CHECKS = {
          "Every distinct document reached (strings in maps, lists, nested objects, conflicts, tombstones) is saved and loaded with ConvertToText; slot-by-slot: slots with visible strings hold exactly one text with the highest-id string, all other slots unchanged with the same ids, no visible string remains, heads unchanged when the reference finds no visible string anywhere.",
          "No claim about unreachable objects; Table outside the alphabet.",
          "DESIGN.md §4 C40", H),
+ "C03": ("model_checking", "explicit-state BFS for start states x exhaustive call menu vs sequential specification on an id-free projection",
+         "Every distinct replica document reached (4 encodings for text themes) x every call of the whole alphabet: the spec's predicted projection (conflict lists, counters, elements, per-element marks) equals what the open transaction shows and what the document shows after commit, on Automerge transactions and AutoCommit; invalid calls return Err.",
+         "Marks of freshly inserted text are left to C25; mid-character indexes only get no-panic.",
+         "DESIGN.md §4 C03", H),
  "C04": ("model_checking", "explicit-state BFS over real AutoCommit replicas with a replica-level alphabet; per-transition metadata oracle",
          "All programs up to the depth bound over {edit+commit, empty commit, merge, fork, set_actor, isolate(H) for every consistent cut, integrate, save+load} on 2-3 replicas; every created change is checked for seq, start_op and deps against the harness's own bookkeeping; heads = maximal changes in every state.",
          "Depth 6/5 (quick), 8/7 (thorough). empty_change is only driven outside isolation (documented to use all current heads).",
